@@ -323,7 +323,7 @@ def run_repo_tests(rec):
     from .. import repoimport
 
     root = os.path.dirname(os.path.dirname(os.path.dirname(os.path.abspath(__file__))))
-    out = tempfile.mktemp(prefix="vf-pytest-", suffix=".json", dir=os.environ.get("VERIF_SCRATCH", "/var/tmp"))
+    out = tempfile.mktemp(prefix="vf-pytest-", suffix=".json", dir=os.environ.get("VERIF_RUN_ROOT") or os.environ.get("VERIF_SCRATCH", "/var/tmp"))
     env = dict(os.environ)
     env["PYTHONPATH"] = root + os.pathsep + os.path.join(repoimport.REPO, "src")
     env["VF_PLUGIN_OUT"] = out
